@@ -1590,6 +1590,18 @@ impl<'a> Visitor<'a, '_, Error> for JSONValidator<'a> {
           if is_ident_string_data_type(self.state.cddl, ident)
             || is_ident_numeric_data_type(self.state.cddl, ident)
           {
+            // a value of another class than the controller literal differs from it
+            let differs_by_class = match controller {
+              Type2::TextValue { .. } => !matches!(self.json, Value::String(_)),
+              Type2::UintValue { .. } | Type2::IntValue { .. } | Type2::FloatValue { .. } => {
+                !matches!(self.json, Value::Number(_))
+              }
+              _ => false,
+            };
+            if differs_by_class {
+              return Ok(());
+            }
+
             self.state.ctrl = Some(ctrl);
             self.visit_type2(controller)?;
             self.state.ctrl = None;
